@@ -186,6 +186,13 @@ def bounded(ctx):
                     viol.append(dict(name="outcome_%s_%d" % (e.__name__, chain_len), what="assembly ended with %r" % (got,), case={}))
                     continue
                 check_product(prod, vec, mods, supplied, pid, pname, viol, "%s chain %d id %s" % (e.__name__, chain_len, pid))
+                # the same module and vector objects used again (combinatorial use): the second product is as complete
+                evals += 1
+                got2, prod2, _ = ba.run_assembly(vec, supplied, **kw)
+                if got2[0] == "product":
+                    check_product(prod2, vec, mods, supplied, pid, pname, viol, "%s chain %d id %s (objects re-used)" % (e.__name__, chain_len, pid))
+                else:
+                    viol.append(dict(name="reuse_%s_%d" % (e.__name__, chain_len), what="second assembly with the same objects ended with %r" % (got2,), case={}))
                 if len(samples) < 2:
                     samples.append(dict(enzyme=e.__name__, chain=chain_len, id=prod.id,
                                         source_features=[str(f.location) for f in prod.features if f.type == "source"]))
